@@ -5,8 +5,11 @@ Import ListNotations.
 Open Scope Z_scope.
 
 (* observed: success?, error class (0 none/other, 1 offsets, 2 digest, 3 size), PATCH log *)
-Record case := mkCase { c_stream : bytes; c_cap : nat; c_held : bytes; c_script : list sact;
-                        c_declared : option bytes; c_dsize : Z; c_ok : bool; c_err : nat; c_log : list (Z * Z) }.
+(* mkLayout: a BlobPut into an OCI layout: observed success, and whether a file now exists under the digest of the stream *)
+Inductive case :=
+| mkCase (c_stream : bytes) (c_cap : nat) (c_held : bytes) (c_script : list sact)
+         (c_declared : option bytes) (c_dsize : Z) (c_ok : bool) (c_err : nat) (c_log : list (Z * Z))
+| mkLayout (stream : bytes) (declared : option bytes) (dsize : Z) (ok : bool) (stored : bool).
 
 Definition err_code (o : outcome) : nat :=
   match o with EMismatchOffsets => 1 | EDigest => 2 | ESize => 3 | OutOfFuel => 9 | _ => 0 end%nat.
@@ -14,11 +17,18 @@ Definition err_code (o : outcome) : nat :=
 Definition pair_eqb (a b : Z * Z) : bool := (fst a =? fst b) && (snd a =? snd b).
 
 Definition check (c : case) : bool :=
-  let fuel := (length (c_stream c) + length (c_script c) + 20)%nat in
-  let '(o, committed, lg) := upload fuel (c_stream c) (c_cap c) (c_held c) (c_script c) (c_declared c) (c_dsize c) in
-  let ok := match o with Done => true | _ => false end in
-  Bool.eqb ok (c_ok c) && (ok || Nat.eqb (err_code o) (c_err c)) && list_eqb pair_eqb lg (c_log c) &&
-  (negb ok || match committed with Some b => beq b (c_stream c) | None => false end).
+  match c with
+  | mkCase c_stream c_cap c_held c_script c_declared c_dsize c_ok c_err c_log =>
+      let fuel := (length c_stream + length c_script + 20)%nat in
+      let '(o, committed, lg) := upload fuel c_stream c_cap c_held c_script c_declared c_dsize in
+      let ok := match o with Done => true | _ => false end in
+      Bool.eqb ok c_ok && (ok || Nat.eqb (err_code o) c_err) && list_eqb pair_eqb lg c_log &&
+      (negb ok || match committed with Some b => beq b c_stream | None => false end)
+  | mkLayout stream declared dsize ok stored =>
+      let '(r, st) := layout_put declared dsize stream [] in
+      let mok := match r with LOk _ _ => true | _ => false end in
+      Bool.eqb mok ok && Bool.eqb (existsb (fun p => beq (fst p) stream) st) stored
+  end.
 
 Fixpoint mismatches_from (i : nat) (cs : list case) : list nat :=
   match cs with
